@@ -29,9 +29,38 @@ def generate(r):
     nf = r.randint(1, 5)
     scripts = []
     senders_of = collections.defaultdict(list)
-    pattern = r.choice(["random", "random", "random", "backlog", "pingpong", "fan", "balanced", "balanced"])
+    pattern = r.choice(["random", "random", "random", "backlog", "pingpong", "fan", "balanced", "balanced", "early_wakes"])
+    preset_spawned = {}
 
-    if pattern == "balanced":
+    if pattern == "early_wakes":
+        # a receiver on a buffered channel that launches short lived children between its receives: every completing child
+        # wakes its sleeping parent early, the parent finds the channel still empty and registers as a waiter once more, so
+        # stale registrations pile up in front of a second receiver that parks later
+        w = 0
+        caps[w] = r.choice([1, 2, 3])
+        k = r.randint(1, 3)
+        first = []
+        children = []
+        for i in range(k):
+            for _ in range(r.randint(1, 2)):
+                children.append(len(children) + 1)
+                first.append(["spawn", children[-1]])
+            first.append(["recv", w])
+        scripts.append(first)
+        for child in children:
+            scripts.append([])
+            preset_spawned[str(child)] = 0
+        second_receives = r.randint(1, 2)
+        second = len(scripts)
+        scripts.append([["recv", w] for _ in range(second_receives)])
+        sender = len(scripts)
+        scripts.append([["send", w, (sender + 1) * 100 + i] for i in range(k + second_receives)])
+        senders_of[w].append(sender)
+        if r.random() < 0.6:
+            # the second receiver only appears after the main fiber has done something else
+            preset_spawned[str(second)] = -1
+        nf = len(scripts)
+    elif pattern == "balanced":
         # count-balanced senders and receivers per channel: completes under every ideal schedule, so every lost
         # wake-up shows as a spurious deadlock
         nsend = r.randint(1, 3)
@@ -148,6 +177,9 @@ def generate(r):
     for _ in range(r.randint(0, 3)):
         kind = r.choice(["send", "recv"])
         ch = r.randrange(len(caps))
+        if pattern == "early_wakes" and ch == 0:
+            # the main fiber stays off the channel whose counts are balanced by construction
+            continue
         if kind == "send":
             main.append(["gsend" if ch in closed else "send", ch, 900 + len(main)])
         else:
@@ -156,8 +188,12 @@ def generate(r):
     variants = [r.choice(["fn", "lambda", "method", "capture"]) for _ in scripts]
     # some fibers are not launched by the main fiber up front but by another fiber in the middle of its script
     # (the launching fiber is then the parent that a completing child wakes)
-    spawned = {}
-    if r.random() < 0.35:
+    spawned = dict(preset_spawned)
+    if str(len(scripts)) and any(parent == -1 for parent in preset_spawned.values()):
+        for child, parent in preset_spawned.items():
+            if parent == -1:
+                main.insert(r.randint(0, len(main)), ["spawn", int(child)])
+    if not preset_spawned and r.random() < 0.35:
         for child in range(1, len(scripts)):
             if r.random() < 0.5:
                 parent = r.randrange(-1, child)          # -1: the main fiber, later in its script
